@@ -44,6 +44,18 @@ def gen_cases(ctx):
                         ops.append(("s", 0))
                 cases.append(Case("%s_g%d_%d_%d_%d_at%d" % (ind, gi, pr[0], pr[1], pr[2], pos), ops, dump=(0, 1),
                                   meta={"ind": ind, "params": pr[:3], "pos": pos, "after": len(rest)}))
+    # DataItem round-trips (builder probe: build, serialize, deserialize, compare field bits)
+    vals = [0.0, -0.0, 1.0, 2.5, 1e-300, 1e300, 5e-324, float("inf")]
+    k = 0
+    for _ in range(60 if not ctx.thorough else 600):
+        l = r.choice([0.0, -0.0, 1.0, 0.5, 5e-324, -3.0])
+        h = l + r.choice([0.0, 1.0, 2.5, 1e300])
+        o = r.choice([l, h])
+        c_ = r.choice([l, h])
+        v = r.choice(vals)
+        cases.append(Case("item%d" % k, [("build", [("o", o), ("h", h), ("l", l), ("c", c_), ("v", v)])], dump=(),
+                          meta={"ind": "DataItem", "params": (0, 0, 0), "pos": 0, "after": 1}))
+        k += 1
     return cases
 
 
@@ -54,6 +66,11 @@ def nontrivial(c):
 def check_impl(ctx, cases):
     out = []
     for c in cases:
+        if c.meta["ind"] == "DataItem":
+            ob = c.obs[0]
+            if isinstance(ob, tuple) and ob[0] == "built" and (ob[2].get("serde_eq") != "true" or ob[2].get("clone_eq") != "true"):
+                out.append(Violation("DataItem %s does not round-trip through serde to an equal value" % (c.ops[0][1],), case=c))
+            continue
         for o, ob in zip(c.ops, c.obs):
             if o[0] == "s" and ob != "ok":
                 out.append(Violation("%s: serialize/deserialize failed: %s" % (c.meta["ind"], ob), case=c))
